@@ -23,6 +23,8 @@ structure Keys (db : Db) : Prop where
   lock : List.Pairwise (fun a b : LockRow => a.resourceId ≠ b.resourceId) db.locks
   task : List.Pairwise (fun a b : TaskRow => a.id ≠ b.id) db.tasks
   states : ∀ r ∈ db.promises, r.state = 1 ∨ r.state = 2 ∨ r.state = 4 ∨ r.state = 8 ∨ r.state = 16
+  /-- an invocation task exists only together with its promise (they are born in one command, promises never disappear) -/
+  invoke : ∀ t ∈ db.tasks, ∀ id, t.id = invokeId id → ∃ p ∈ db.promises, p.id = id
 
 /-- `lo` = a database the coroutine's history has already seen (everything later only accumulates promises: `PromMono`);
     `hi` = a database at or after every transaction of this round of completions -/
@@ -38,11 +40,12 @@ def Answers (d : Dialect) (lo hi : Db) : List Subm → List Cpl → Prop
   | s :: ss, c :: cs => AnswerOne d lo hi s c ∧ Answers d lo hi ss cs
   | _, _ => False
 
-inductive NoPanic (d : Dialect) : Db → Co → Prop
-  | done (lo : Db) (o : Option Resp) : NoPanic d lo (.done o)
-  | retry (lo : Db) : NoPanic d lo .retry
-  | yield (lo : Db) (subs : List Subm) (k : Time → List Cpl → Co) :
-      (∀ t cpls hi, PromMono lo hi → Answers d lo hi subs cpls → NoPanic d hi (k t cpls)) → NoPanic d lo (.yield subs k)
+/-- `now` = the clock when the coroutine last ran: it is resumed at a clock that is not earlier (ticks are non-decreasing) -/
+inductive NoPanic (d : Dialect) : Db → Time → Co → Prop
+  | done (lo : Db) (now : Time) (o : Option Resp) : NoPanic d lo now (.done o)
+  | retry (lo : Db) (now : Time) : NoPanic d lo now .retry
+  | yield (lo : Db) (now : Time) (subs : List Subm) (k : Time → List Cpl → Co) :
+      (∀ t cpls hi, now ≤ t → PromMono lo hi → Answers d lo hi subs cpls → NoPanic d hi t (k t cpls)) → NoPanic d lo now (.yield subs k)
 
 theorem answers_single {d : Dialect} {lo hi : Db} {s : Subm} {cpls : List Cpl} (h : Answers d lo hi [s] cpls) :
     ∃ c, cpls = [c] ∧ AnswerOne d lo hi s c := by
@@ -170,72 +173,72 @@ theorem shape_updateTask (d : Dialect) (c : UpdateTaskCmd) (db db' : Db) (r : Re
 
 /-! ### the single-yield coroutines -/
 
-macro "np_leaf" : tactic => `(tactic| first | exact NoPanic.done _ _ | exact NoPanic.retry _)
+macro "np_leaf" : tactic => `(tactic| first | exact NoPanic.done _ _ _ | exact NoPanic.retry _ _)
 
-theorem np_readSchedule (d : Dialect) (id : String) (t0 : Time)  (lo : Db) : NoPanic d lo (readSchedule id t0) := by
+theorem np_readSchedule (d : Dialect) (id : String) (t0 : Time)  (lo : Db) (now : Time) : NoPanic d lo now (readSchedule id t0) := by
   unfold readSchedule
-  refine NoPanic.yield _ _ _ ?_
-  intro t cpls hi _ h
-  rcases ans_readSchedule h with h1 | h1 | ⟨r, h1⟩ <;> simp only [h1] <;> first | np_leaf | exact NoPanic.done _ _ _
+  refine NoPanic.yield _ _ _ _ ?_
+  intro t cpls hi _ _ h
+  rcases ans_readSchedule h with h1 | h1 | ⟨r, h1⟩ <;> simp only [h1] <;> first | np_leaf | exact NoPanic.done _ _ _ _
 
-theorem np_errResp (d : Dialect) (lo : Db) (n : Nat) : NoPanic d lo (errResp n) := NoPanic.done _ _
+theorem np_errResp (d : Dialect) (lo : Db) (now : Time) (n : Nat) : NoPanic d lo now (errResp n) := NoPanic.done _ _ _
 
-theorem np_deleteSchedule (d : Dialect) (id : String) (t0 : Time)  (lo : Db) : NoPanic d lo (deleteSchedule id t0) := by
+theorem np_deleteSchedule (d : Dialect) (id : String) (t0 : Time)  (lo : Db) (now : Time) : NoPanic d lo now (deleteSchedule id t0) := by
   unfold deleteSchedule
-  refine NoPanic.yield _ _ _ ?_
-  intro t cpls hi _ h
+  refine NoPanic.yield _ _ _ _ ?_
+  intro t cpls hi _ _ h
   rcases ans_rows h (fun db db' r hk hx => shape_deleteSchedule d _ db db' r hk hx) with rfl | ⟨n, rfl, hn⟩
-  · exact np_errResp d _ _
+  · exact np_errResp d _ _ _
   · simp only
     have : ¬ n > 1 := by omega
     simp only [this, if_false]
-    exact NoPanic.done _ _
+    exact NoPanic.done _ _ _
 
-theorem np_releaseLock (d : Dialect) (res ex : String) (t0 : Time)  (lo : Db) : NoPanic d lo (releaseLock res ex t0) := by
+theorem np_releaseLock (d : Dialect) (res ex : String) (t0 : Time)  (lo : Db) (now : Time) : NoPanic d lo now (releaseLock res ex t0) := by
   unfold releaseLock
-  refine NoPanic.yield _ _ _ ?_
-  intro t cpls hi _ h
+  refine NoPanic.yield _ _ _ _ ?_
+  intro t cpls hi _ _ h
   rcases ans_rows h (fun db db' r hk hx => shape_releaseLock d _ db db' r hk hx) with rfl | ⟨n, rfl, hn⟩
-  · exact np_errResp d _ _
+  · exact np_errResp d _ _ _
   · simp only
     have : ¬ n > 1 := by omega
     simp only [this, if_false]
-    exact NoPanic.done _ _
+    exact NoPanic.done _ _ _
 
-theorem np_acquireLock (d : Dialect) (req : AcquireLockReq) (t0 : Time)  (lo : Db) : NoPanic d lo (acquireLock req t0) := by
+theorem np_acquireLock (d : Dialect) (req : AcquireLockReq) (t0 : Time)  (lo : Db) (now : Time) : NoPanic d lo now (acquireLock req t0) := by
   unfold acquireLock
-  refine NoPanic.yield _ _ _ ?_
-  intro t cpls hi _ h
+  refine NoPanic.yield _ _ _ _ ?_
+  intro t cpls hi _ _ h
   rcases ans_rows h (fun db db' r hk hx => shape_acquireLock d _ db db' r hk hx) with rfl | ⟨n, rfl, hn⟩
-  · exact np_errResp d _ _
+  · exact np_errResp d _ _ _
   · simp only
     have : ¬ n > 1 := by omega
     simp only [this, if_false]
-    split <;> exact NoPanic.done _ _
+    split <;> exact NoPanic.done _ _ _
 
-theorem np_heartbeatLocks (d : Dialect) (pid : String) (t0 : Time)  (lo : Db) : NoPanic d lo (heartbeatLocks pid t0) := by
+theorem np_heartbeatLocks (d : Dialect) (pid : String) (t0 : Time)  (lo : Db) (now : Time) : NoPanic d lo now (heartbeatLocks pid t0) := by
   unfold heartbeatLocks
-  refine NoPanic.yield _ _ _ ?_
-  intro t cpls hi _ h
+  refine NoPanic.yield _ _ _ _ ?_
+  intro t cpls hi _ _ h
   rcases ans_rows_any h (by intro db db' r hx; simp only [Db.exec] at hx; injection hx with hx; injection hx with _ hr; exact ⟨_, hr.symm⟩) with rfl | ⟨n, rfl⟩
-  · exact np_errResp d _ _
-  · exact NoPanic.done _ _
+  · exact np_errResp d _ _ _
+  · exact NoPanic.done _ _ _
 
-theorem np_heartbeatTasks (d : Dialect) (pid : String) (t0 : Time)  (lo : Db) : NoPanic d lo (heartbeatTasks pid t0) := by
+theorem np_heartbeatTasks (d : Dialect) (pid : String) (t0 : Time)  (lo : Db) (now : Time) : NoPanic d lo now (heartbeatTasks pid t0) := by
   unfold heartbeatTasks
-  refine NoPanic.yield _ _ _ ?_
-  intro t cpls hi _ h
+  refine NoPanic.yield _ _ _ _ ?_
+  intro t cpls hi _ _ h
   rcases ans_rows_any h (by intro db db' r hx; simp only [Db.exec] at hx; injection hx with hx; injection hx with _ hr; exact ⟨_, hr.symm⟩) with rfl | ⟨n, rfl⟩
-  · exact np_errResp d _ _
-  · exact NoPanic.done _ _
+  · exact np_errResp d _ _ _
+  · exact NoPanic.done _ _ _
 
-theorem np_timeoutLocks (d : Dialect) (t0 : Time)  (lo : Db) : NoPanic d lo (timeoutLocks t0) := by
+theorem np_timeoutLocks (d : Dialect) (t0 : Time)  (lo : Db) (now : Time) : NoPanic d lo now (timeoutLocks t0) := by
   unfold timeoutLocks
-  refine NoPanic.yield _ _ _ ?_
-  intro t cpls hi _ h
+  refine NoPanic.yield _ _ _ _ ?_
+  intro t cpls hi _ _ h
   rcases ans_rows_any h (by intro db db' r hx; simp only [Db.exec] at hx; injection hx with hx; injection hx with _ hr; exact ⟨_, hr.symm⟩) with rfl | ⟨n, rfl⟩
-  · exact NoPanic.done _ _
-  · exact NoPanic.done _ _
+  · exact NoPanic.done _ _ _
+  · exact NoPanic.done _ _ _
 
 /-! ### reading one promise; the completion block -/
 
@@ -317,8 +320,8 @@ theorem ans_completeTx {d : Dialect} {lo hi : Db} {cmd : UpdatePromiseCmd} {t : 
     have h1 : ¬ n0 > 1 := by omega
     simp [h1]
 
-theorem np_completeCont (d : Dialect) (lo : Db) (cmd : UpdatePromiseCmd) (t : Time) (onTrue : Co) (hT : ∀ hi, NoPanic d hi onTrue) (site : String) :
-    NoPanic d lo (.yield [.store (completeTx cmd t)] fun _ cpls2 =>
+theorem np_completeCont (d : Dialect) (lo : Db) (now : Time) (cmd : UpdatePromiseCmd) (t : Time) (onTrue : Co) (hT : ∀ hi t', NoPanic d hi t' onTrue) (site : String) :
+    NoPanic d lo now (.yield [.store (completeTx cmd t)] fun _ cpls2 =>
       match cpls2 with
       | [c] =>
         match completeOut c with
@@ -327,63 +330,63 @@ theorem np_completeCont (d : Dialect) (lo : Db) (cmd : UpdatePromiseCmd) (t : Ti
         | .ok false => .retry
         | .ok true => onTrue
       | _ => .panic site) := by
-  refine NoPanic.yield _ _ _ ?_
-  intro t' cpls hi _ h
+  refine NoPanic.yield _ _ _ _ ?_
+  intro t' cpls hi _ _ h
   obtain ⟨c, rfl, hc⟩ := answers_single h
   simp only
   rcases ans_completeTx hc with h1 | ⟨b, h1⟩
-  · rw [h1]; exact np_errResp d _ _
-  · rw [h1]; cases b <;> first | exact NoPanic.retry _ | exact hT _
+  · rw [h1]; exact np_errResp d _ _ _
+  · rw [h1]; cases b <;> first | exact NoPanic.retry _ _ | exact hT _ _
 
-theorem np_readPromise (d : Dialect) (id : String) (t0 : Time)  (lo : Db) : NoPanic d lo (readPromise id t0) := by
+theorem np_readPromise (d : Dialect) (id : String) (t0 : Time)  (lo : Db) (now : Time) : NoPanic d lo now (readPromise id t0) := by
   unfold readPromise
-  refine NoPanic.yield _ _ _ ?_
-  intro t cpls hi _ h
+  refine NoPanic.yield _ _ _ _ ?_
+  intro t cpls hi _ _ h
   rcases ans_readPromise h with h1 | h1 | ⟨r, h1, _, hex⟩ <;> simp only [h1]
-  · exact np_errResp d _ _
-  · exact NoPanic.done _ _
+  · exact np_errResp d _ _ _
+  · exact NoPanic.done _ _ _
   · split
-    · exact np_completeCont d _ _ _ _ (fun _ => NoPanic.done _ _) _
-    · exact NoPanic.done _ _
+    · exact np_completeCont d _ _ _ _ _ (fun _ _ => NoPanic.done _ _ _) _
+    · exact NoPanic.done _ _ _
 
 theorem alreadyCompleted_some (n : Nat) (hv : validState n) (hp : (n == P_PENDING) = false) : ∃ st, alreadyCompletedStatus n = some st := by
   unfold alreadyCompletedStatus
   rcases hv with h | h | h | h | h <;> subst h <;> simp_all [P_PENDING, P_RESOLVED, P_REJECTED, P_CANCELED, P_TIMEDOUT]
 
-theorem np_completePromise (d : Dialect) (req : CompletePromiseReq) (t0 : Time)  (lo : Db) : NoPanic d lo (completePromise req t0) := by
+theorem np_completePromise (d : Dialect) (req : CompletePromiseReq) (t0 : Time)  (lo : Db) (now : Time) : NoPanic d lo now (completePromise req t0) := by
   unfold completePromise
-  refine NoPanic.yield _ _ _ ?_
-  intro t cpls hi _ h
+  refine NoPanic.yield _ _ _ _ ?_
+  intro t cpls hi _ _ h
   rcases ans_readPromise h with h1 | h1 | ⟨r, h1, hv, _⟩ <;> simp only [h1]
-  · exact np_errResp d _ _
-  · exact NoPanic.done _ _
+  · exact np_errResp d _ _ _
+  · exact NoPanic.done _ _ _
   · split
-    · exact np_completeCont d _ _ _ _ (fun _ => NoPanic.done _ _) _
+    · exact np_completeCont d _ _ _ _ _ (fun _ _ => NoPanic.done _ _ _) _
     · rename_i hp
       have hp' : (r.toPromise.state == P_PENDING) = false := by simpa using hp
       obtain ⟨st, hst⟩ := alreadyCompleted_some r.toPromise.state (by simpa [PromiseRow.toPromise] using hv) hp'
       simp only [hst]
-      exact NoPanic.done _ _
+      exact NoPanic.done _ _ _
 
 /-! ### searches (the front ends guarantee a non-empty pattern and a positive limit) -/
 
-theorem np_searchSchedules (d : Dialect) (req : SearchSchedulesReq) (t0 : Time) (hid : req.id ≠ "") (hl : 0 < req.limit) (lo : Db) :
-    NoPanic d lo (searchSchedules req t0) := by
+theorem np_searchSchedules (d : Dialect) (req : SearchSchedulesReq) (t0 : Time) (hid : req.id ≠ "") (hl : 0 < req.limit) (lo : Db) (now : Time) :
+    NoPanic d lo now (searchSchedules req t0) := by
   unfold searchSchedules
   have h1 : (req.id == "") = false := by simpa using hid
   have h2 : ¬ req.limit ≤ 0 := by omega
   simp only [h1, h2, Bool.false_eq_true, if_false]
-  refine NoPanic.yield _ _ _ ?_
-  intro t cpls hi _ h
+  refine NoPanic.yield _ _ _ _ ?_
+  intro t cpls hi _ _ h
   rcases answers_store h with rfl | ⟨rs, db, db', rfl, _, hx, _, _⟩
-  · exact np_errResp d _ _
+  · exact np_errResp d _ _ _
   · obtain ⟨r, he, rfl⟩ := execTx_one hx
     simp only [Db.exec] at he
     split at he
     · cases he
     · injection he with he; injection he with _ hr
       subst hr
-      exact NoPanic.done _ _
+      exact NoPanic.done _ _ _
 
 theorem answers_map {d : Dialect} {lo hi : Db} {α : Type} (f : α → List Cmd) : ∀ (l : List α) (cpls : List Cpl),
     Answers d lo hi (l.map fun x => .store (f x)) cpls → ∀ c ∈ cpls, ∃ x ∈ l, AnswerOne d lo hi (.store (f x)) c := by
@@ -411,16 +414,16 @@ theorem no_panic_outs {d : Dialect} {lo hi : Db} {α : Type} (f : α → UpdateP
   obtain ⟨x, _, hx⟩ := answers_map (fun x => completeTx (f x) t) l cpls h c hc
   rcases ans_completeTx hx with h1 | ⟨b, h1⟩ <;> simp [h1]
 
-theorem np_searchPromises (d : Dialect) (req : SearchPromisesReq) (t0 : Time) (hid : req.id ≠ "") (hl : 0 < req.limit) (lo : Db) :
-    NoPanic d lo (searchPromises req t0) := by
+theorem np_searchPromises (d : Dialect) (req : SearchPromisesReq) (t0 : Time) (hid : req.id ≠ "") (hl : 0 < req.limit) (lo : Db) (now : Time) :
+    NoPanic d lo now (searchPromises req t0) := by
   unfold searchPromises
   have h1 : (req.id == "") = false := by simpa using hid
   have h2 : ¬ req.limit ≤ 0 := by omega
   simp only [h1, h2, Bool.false_eq_true, if_false]
-  refine NoPanic.yield _ _ _ ?_
-  intro t cpls hi _ h
+  refine NoPanic.yield _ _ _ _ ?_
+  intro t cpls hi _ _ h
   rcases answers_store h with rfl | ⟨rs, db, db', rfl, _, hx, _, _⟩
-  · exact np_errResp d _ _
+  · exact np_errResp d _ _ _
   · obtain ⟨r, he, rfl⟩ := execTx_one hx
     simp only [Db.exec] at he
     split at he
@@ -429,14 +432,14 @@ theorem np_searchPromises (d : Dialect) (req : SearchPromisesReq) (t0 : Time) (h
       subst hr
       simp only
       split
-      · exact NoPanic.done _ _
-      · refine NoPanic.yield _ _ _ ?_
-        intro t2 cpls2 hi2 _ h2'
+      · exact NoPanic.done _ _ _
+      · refine NoPanic.yield _ _ _ _ ?_
+        intro t2 cpls2 hi2 _ _ h2'
         have hn := no_panic_outs (fun p : Promise => timeoutCmd p.id p) t _ cpls2 h2'
         split
         · rename_i s heq
           exact absurd rfl (hn _ (List.mem_of_find?_eq_some heq) s)
-        · split <;> first | exact np_errResp d _ _ | exact NoPanic.retry _
+        · split <;> first | exact np_errResp d _ _ _ | exact NoPanic.retry _ _
 
 /-! ### registrations -/
 
@@ -447,30 +450,579 @@ theorem shape_createCallback (d : Dialect) (c : CreateCallbackCmd) (db db' : Db)
   · exact ⟨1, hr.symm, Nat.le_refl _⟩
   · exact ⟨0, hr.symm, Nat.zero_le _⟩
 
-theorem np_registerCallback (d : Dialect) (pid cbId recv : String) (mesg : Mesg) (timeout : Int) (lo : Db) :
-    NoPanic d lo (registerCallback pid cbId recv mesg timeout) := by
+theorem np_registerCallback (d : Dialect) (pid cbId recv : String) (mesg : Mesg) (timeout : Int) (lo : Db) (now : Time) :
+    NoPanic d lo now (registerCallback pid cbId recv mesg timeout) := by
   unfold registerCallback
-  refine NoPanic.yield _ _ _ ?_
-  intro t cpls hi _ h
+  refine NoPanic.yield _ _ _ _ ?_
+  intro t cpls hi _ _ h
   rcases ans_readPromise h with h1 | h1 | ⟨r, h1, _, hex⟩ <;> simp only [h1]
-  · exact np_errResp d _ _
-  · exact NoPanic.done _ _
+  · exact np_errResp d _ _ _
+  · exact NoPanic.done _ _ _
   · split
-    · refine NoPanic.yield _ _ _ ?_
-      intro t2 cpls2 hi2 hm2 h2
+    · refine NoPanic.yield _ _ _ _ ?_
+      intro t2 cpls2 hi2 _ hm2 h2
       rcases ans_rows h2 (fun db db' r hk hx => shape_createCallback d _ db db' r hk hx) with rfl | ⟨n, rfl, hn⟩
-      · exact np_errResp d _ _
+      · exact np_errResp d _ _ _
       · simp only
         have : ¬ n > 1 := by omega
         simp only [this, if_false]
         split
-        · exact NoPanic.done _ _
-        · refine NoPanic.yield _ _ _ ?_
-          intro t3 cpls3 hi3 _ h3
+        · exact NoPanic.done _ _ _
+        · refine NoPanic.yield _ _ _ _ ?_
+          intro t3 cpls3 hi3 _ _ h3
           have hex2 : ∃ x ∈ hi2.promises, x.id = pid := promMono_has ‹PromMono hi hi2› hex
           rcases ans_readPromise_exists h3 hex2 with h4 | ⟨r4, h4⟩ <;> simp only [h4]
-          · exact np_errResp d _ _
-          · exact NoPanic.done _ _
-    · exact NoPanic.done _ _
+          · exact np_errResp d _ _ _
+          · exact NoPanic.done _ _ _
+    · exact NoPanic.done _ _ _
+
+theorem np_createCallback (d : Dialect) (req : CreateCallbackReq) (t0 : Time) (lo : Db) (now : Time) : NoPanic d lo now (createCallback req t0) := by
+  unfold createCallback
+  split
+  · exact NoPanic.done _ _ _
+  · exact np_registerCallback d _ _ _ _ _ lo now
+
+theorem np_createSubscription (d : Dialect) (req : CreateSubscriptionReq) (t0 : Time) (lo : Db) (now : Time) : NoPanic d lo now (createSubscription req t0) := by
+  unfold createSubscription
+  exact np_registerCallback d _ _ _ _ _ lo now
+
+/-! ### schedules, tasks -/
+
+theorem shape_createSchedule (d : Dialect) (c : CreateScheduleCmd) (db db' : Db) (r : Res) (_hk : Keys db)
+    (h : db.exec (defs d) (.createSchedule c) = .ok (db', r)) : ∃ n, r = .rows n ∧ n ≤ 1 := by
+  simp only [Db.exec] at h
+  split at h <;> (injection h with h; injection h with _ hr)
+  · exact ⟨0, hr.symm, Nat.zero_le _⟩
+  · exact ⟨1, hr.symm, Nat.le_refl _⟩
+
+theorem np_createSchedule (d : Dialect) (env : Env) (req : CreateScheduleReq) (t0 : Time) (lo : Db) (now : Time) :
+    NoPanic d lo now (createSchedule env req t0) := by
+  unfold createSchedule
+  refine NoPanic.yield _ _ _ _ ?_
+  intro t cpls hi _ _ h
+  rcases ans_readSchedule h with h1 | h1 | ⟨r, h1⟩ <;> simp only [h1]
+  · exact np_errResp d _ _ _
+  · split
+    · exact np_errResp d _ _ _
+    · refine NoPanic.yield _ _ _ _ ?_
+      intro t2 cpls2 hi2 _ _ h2
+      rcases ans_rows h2 (fun db db' r hk hx => shape_createSchedule d _ db db' r hk hx) with rfl | ⟨n, rfl, hn⟩
+      · exact np_errResp d _ _ _
+      · simp only
+        have : ¬ n > 1 := by omega
+        simp only [this, if_false]
+        split <;> first | exact NoPanic.done _ _ _ | exact NoPanic.retry _ _
+  · exact NoPanic.done _ _ _
+
+theorem ans_readTask {d : Dialect} {c : ReadTaskCmd} {cpls : List Cpl} {lo hi : Db} (h : Answers d lo hi [.store [.readTask c]] cpls) :
+    readTaskRow cpls = .err ∨ readTaskRow cpls = .none ∨ ∃ r, readTaskRow cpls = .one r := by
+  rcases answers_store h with rfl | ⟨rs, db, db', rfl, _, hx, _, _⟩
+  · exact .inl rfl
+  · obtain ⟨r, he, rfl⟩ := execTx_one hx
+    simp only [Db.exec] at he
+    injection he with he; injection he with _ hr
+    subst hr
+    rcases take_one_cases (db.tasks.filter ((defs d).taskSelect_where c)) with hl | ⟨a, hl⟩
+    · right; left; simp [readTaskRow, hl]
+    · right; right; exact ⟨(defs d).taskSelect_proj a, by simp [readTaskRow, hl]⟩
+
+theorem np_completeTask (d : Dialect) (id : String) (counter : Int) (t0 : Time) (lo : Db) (now : Time) :
+    NoPanic d lo now (completeTask id counter t0) := by
+  unfold completeTask
+  refine NoPanic.yield _ _ _ _ ?_
+  intro t cpls hi _ _ h
+  rcases ans_readTask h with h1 | h1 | ⟨r, h1⟩ <;> simp only [h1]
+  · exact np_errResp d _ _ _
+  · exact NoPanic.done _ _ _
+  · split
+    · exact NoPanic.done _ _ _
+    · split
+      · exact NoPanic.done _ _ _
+      · split
+        · exact NoPanic.done _ _ _
+        · refine NoPanic.yield _ _ _ _ ?_
+          intro t2 cpls2 hi2 _ _ h2
+          rcases ans_rows h2 (fun db db' r hk hx => shape_updateTask d _ db db' r hk hx) with rfl | ⟨n, rfl, hn⟩
+          · exact np_errResp d _ _ _
+          · simp only
+            have : ¬ n > 1 := by omega
+            simp only [this, if_false]
+            split <;> first | exact NoPanic.done _ _ _ | exact NoPanic.retry _ _
+
+/-- one or two promise reads answer with as many `promises` results -/
+theorem ans_reads {d : Dialect} {lo hi : Db} (c1 : ReadPromiseCmd) (more : Option ReadPromiseCmd) {cpls : List Cpl}
+    (h : Answers d lo hi [.store (.readPromise c1 :: (match more with | some c2 => [.readPromise c2] | none => []))] cpls) :
+    cpls = [.err] ∨ ∃ rows1, (more = none ∧ cpls = [.store [.promises rows1]]) ∨ ∃ c2 rows2, more = some c2 ∧ cpls = [.store [.promises rows1, .promises rows2]] := by
+  rcases answers_store h with rfl | ⟨rs, db, db', rfl, _, hx, _, _⟩
+  · exact .inl rfl
+  · right
+    obtain ⟨db1, r1, rs1, e1, x1, hr1⟩ := execTx_cons_ok _ _ _ _ _ _ hx
+    simp only [Db.exec] at e1
+    injection e1 with e1; injection e1 with hd1 hr
+    subst hr
+    cases more with
+    | none =>
+      simp only [Db.execTx] at x1
+      injection x1 with x1; injection x1 with _ hrs
+      subst hrs; subst hr1
+      exact ⟨_, .inl ⟨rfl, rfl⟩⟩
+    | some c2 =>
+      obtain ⟨r2, e2, hrs⟩ := execTx_one x1
+      simp only [Db.exec] at e2
+      injection e2 with e2; injection e2 with _ hr2
+      subst hr2; subst hrs; subst hr1
+      exact ⟨_, .inr ⟨c2, _, rfl, rfl⟩⟩
+
+theorem np_claimTask (d : Dialect) (env : Env) (req : ClaimTaskReq) (t0 : Time) (lo : Db) (now : Time)
+    (hp : req.processId ≠ "") (httl : 0 ≤ req.ttl) : NoPanic d lo now (claimTask env req t0) := by
+  unfold claimTask
+  have h1 : (req.processId == "") = false := by simpa using hp
+  have h2 : ¬ req.ttl < 0 := by omega
+  simp only [h1, h2, Bool.false_eq_true, if_false]
+  refine NoPanic.yield _ _ _ _ ?_
+  intro t cpls hi _ _ h
+  rcases ans_readTask h with h1 | h1 | ⟨r, h1⟩ <;> simp only [h1]
+  · exact np_errResp d _ _ _
+  · exact NoPanic.done _ _ _
+  · split
+    · exact NoPanic.done _ _ _
+    · split
+      · exact NoPanic.done _ _ _
+      · split
+        · exact NoPanic.done _ _ _
+        · refine NoPanic.yield _ _ _ _ ?_
+          intro t2 cpls2 hi2 _ _ h2
+          rcases ans_rows h2 (fun db db' r hk hx => shape_updateTask d _ db db' r hk hx) with rfl | ⟨n, rfl, hn⟩
+          · exact np_errResp d _ _ _
+          · simp only
+            have : ¬ n > 1 := by omega
+            simp only [this, if_false]
+            split
+            · exact NoPanic.retry _ _
+            · refine NoPanic.yield _ _ _ _ ?_
+              intro t3 cpls3 hi3 _ _ h3
+              by_cases hres : (r.toTask.mesg.type == "resume") = true
+              · simp only [hres, if_true] at h3 ⊢
+                rcases ans_reads (d := d) { id := r.toTask.mesg.root } (some { id := r.toTask.mesg.leaf }) h3 with rfl | ⟨rows1, ⟨hm, _⟩ | ⟨c2, rows2, _, rfl⟩⟩
+                · exact np_errResp d _ _ _
+                · cases hm
+                · simp
+                  exact NoPanic.done _ _ _
+              · have hres' : (r.toTask.mesg.type == "resume") = false := by simpa using hres
+                simp only [hres', Bool.false_eq_true, if_false] at h3 ⊢
+                rcases ans_reads (d := d) { id := r.toTask.mesg.root } none h3 with rfl | ⟨rows1, ⟨_, rfl⟩ | ⟨c2, rows2, hm, _⟩⟩
+                · exact np_errResp d _ _ _
+                · simp
+                  exact NoPanic.done _ _ _
+                · cases hm
+
+/-! ### creating a promise (with or without its task) -/
+
+/-- what the create command answers: one result; `rows n`, `n ≤ 1` for a bare create; `rows2 n n`, `n ≤ 1` for a
+    create-with-task whose task is the promise's invocation task -/
+theorem createTask_fresh (g : SqlDefs) (db : Db) (c : CreateTaskCmd) (h : db.tasks.any (fun r => r.id == c.id) = false) :
+    (∃ e, db.createTask g c = .error e) ∨ ∃ db2, db.createTask g c = .ok (db2, 1) := by
+  unfold Db.createTask
+  split
+  · exact .inl ⟨_, rfl⟩
+  · split
+    · exact .inl ⟨_, rfl⟩
+    · simp only [h, Bool.false_eq_true, if_false]
+      exact .inr ⟨_, rfl⟩
+
+theorem exec_childCmd_shape {d : Dialect} (pc : CreatePromiseCmd) (ft : Option CreateTaskCmd)
+    (hft : ∀ tc, ft = some tc → tc.id = invokeId pc.id) (db db' : Db) (r : Res) (hk : Keys db)
+    (he : db.exec (defs d) (childCmd pc ft) = .ok (db', r)) :
+    (ft = none ∧ ∃ n, r = .rows n ∧ n ≤ 1) ∨ (∃ tc, ft = some tc ∧ ∃ n, r = .rows2 n n ∧ n ≤ 1) := by
+  cases ft with
+  | none =>
+    left
+    simp only [childCmd, Db.exec] at he
+    injection he with he; injection he with _ hr
+    refine ⟨rfl, _, hr.symm, ?_⟩
+    unfold Db.createPromise; split <;> simp
+  | some tc =>
+    right
+    have hid := hft tc rfl
+    simp only [childCmd, Db.exec] at he
+    by_cases hex : db.promises.any (fun r => r.id == pc.id) = true
+    · have h0 : (db.createPromise (defs d) pc).2 = 0 := by unfold Db.createPromise; simp [hex]
+      simp only [h0] at he
+      simp at he
+      exact ⟨tc, rfl, 0, he.2.symm, Nat.zero_le _⟩
+    · have hex' : db.promises.any (fun r => r.id == pc.id) = false := by simpa using hex
+      have h1 : db.createPromise (defs d) pc = ({ db with promises := db.promises ++ [(defs d).promiseInsert_row pc (db.seqP + 1)], seqP := db.seqP + 1 }, 1) := by
+        unfold Db.createPromise; simp [hex']
+      rw [h1] at he
+      simp only at he
+      have hnot : ({ db with promises := db.promises ++ [(defs d).promiseInsert_row pc (db.seqP + 1)], seqP := db.seqP + 1 } : Db).tasks.any (fun r => r.id == tc.id) = false := by
+        rw [List.any_eq_false]
+        intro t ht hte
+        have hte' : t.id = invokeId pc.id := by rw [← hid]; simpa using hte
+        obtain ⟨p, hp, hpid⟩ := hk.invoke t ht pc.id hte'
+        rw [List.any_eq_false] at hex'
+        exact hex' p hp (by simp [hpid])
+      have hct := createTask_fresh (defs d) _ tc hnot
+      have h10 : ((1 : Nat) == 0) = false := rfl
+      simp only [h10, Bool.false_eq_true, if_false] at he
+      rcases hct with ⟨e, hce⟩ | ⟨db2, hce⟩
+      · rw [hce] at he; cases he
+      · rw [hce] at he
+        injection he with he; injection he with _ hr
+        exact ⟨tc, rfl, 1, hr.symm, Nat.le_refl _⟩
+
+theorem ans_childStore {d : Dialect} {lo hi : Db} (pc : CreatePromiseCmd) (ft : Option CreateTaskCmd)
+    (hft : ∀ tc, ft = some tc → tc.id = invokeId pc.id) {cpls : List Cpl}
+    (h : Answers d lo hi [.store [childCmd pc ft]] cpls) :
+    cpls = [.err] ∨ (∃ n, ft = none ∧ cpls = [.store [.rows n]] ∧ n ≤ 1) ∨ (∃ n tc, ft = some tc ∧ cpls = [.store [.rows2 n n]] ∧ n ≤ 1) := by
+  rcases answers_store h with rfl | ⟨rs, db, db', rfl, hk, hx, _, _⟩
+  · exact .inl rfl
+  · right
+    obtain ⟨r, he, rfl⟩ := execTx_one hx
+    rcases exec_childCmd_shape pc ft hft db db' r hk he with ⟨hn, n, rfl, hn1⟩ | ⟨tc, hs, n, rfl, hn1⟩
+    · exact .inl ⟨n, hn, rfl, hn1⟩
+    · exact .inr ⟨n, tc, hs, rfl, hn1⟩
+
+theorem np_createPromiseInner (d : Dialect) (req : CreatePromiseReq) (taskCmd : Option CreateTaskCmd) (withTask : Bool) (t0 : Time)
+    (hw : withTask = taskCmd.isSome) (hid : ∀ tc, taskCmd = some tc → tc.id = invokeId req.id) (lo : Db) (now : Time) :
+    NoPanic d lo now (createPromiseInner req taskCmd withTask t0) := by
+  unfold createPromiseInner
+  refine NoPanic.yield _ _ _ _ ?_
+  intro t cpls hi _ _ h
+  rcases ans_readPromise h with h1 | h1 | ⟨r, h1, _, _⟩ <;> simp only [h1]
+  · exact np_errResp d _ _ _
+  · -- not there: route, then create
+    unfold createPromiseChild
+    refine NoPanic.yield _ _ _ _ ?_
+    intro t2 cpls2 hi2 _ _ h2
+    obtain ⟨rc, rfl, hrc⟩ := answers_single h2
+    simp only
+    split
+    · exact np_errResp d _ _ _
+    · split
+      · exact np_errResp d _ _ _
+      · rename_i hnf hroute
+        unfold childStore
+        refine NoPanic.yield _ _ _ _ ?_
+        intro t3 cpls3 hi3 _ _ h3
+        have hft : ∀ tc, childTask { id := req.id, param := req.param, timeout := req.timeout, idempotencyKey := req.idempotencyKey, tags := req.tags, createdOn := t } taskCmd (routeOf rc) = some tc →
+            tc.id = invokeId req.id := by
+          intro tc htc
+          unfold childTask at htc
+          split at htc
+          · cases htc
+          · injection htc with htc
+            subst htc
+            split
+            · rename_i tc0; exact hid tc0 rfl
+            · rfl
+        rcases ans_childStore _ _ hft h3 with rfl | ⟨n, hnone, rfl, hn⟩ | ⟨n, tc, hsome, rfl, hn⟩
+        · exact np_errResp d _ _ _
+        · -- bare create
+          have hn1 : ¬ n > 1 := by omega
+          simp [hn1]
+          split
+          · exact NoPanic.retry _ _
+          · -- withTask would need a task: but then the router matched (hroute) and ft is some
+            cases hwt : withTask with
+            | false => simp; exact NoPanic.done _ _ _
+            | true =>
+              exfalso
+              rw [hwt] at hw
+              have hts : taskCmd.isSome = true := hw.symm
+              cases htc : taskCmd with
+              | none => simp [htc] at hts
+              | some tc0 =>
+                -- the router matched (else the S_PROMISE_RECV_NOT_FOUND branch), so childTask is some
+                cases hro : routeOf rc with
+                | none => simp [htc, hro] at hroute
+                | some recv => simp [childTask, hro] at hnone
+        · have hn1 : ¬ n > 1 := by omega
+          simp [hn1, hsome]
+          split
+          · exact NoPanic.retry _ _
+          · cases hwt : withTask <;> simp <;> exact NoPanic.done _ _ _
+  · split
+    · refine np_completeCont d _ _ _ _ _ (fun _ _ => ?_) _
+      cases withTask <;> exact NoPanic.done _ _ _
+    · split <;> (cases withTask <;> exact NoPanic.done _ _ _)
+
+/-! ### background coroutines -/
+
+theorem answers_mem {d : Dialect} {lo hi : Db} : ∀ (subs : List Subm) (cpls : List Cpl),
+    Answers d lo hi subs cpls → cpls.length = subs.length ∧ ∀ c ∈ cpls, ∃ s ∈ subs, AnswerOne d lo hi s c := by
+  intro subs
+  induction subs with
+  | nil => intro cpls h; cases cpls with | nil => exact ⟨rfl, by intro c hc; cases hc⟩ | cons _ _ => simp [Answers] at h
+  | cons a l ih =>
+    intro cpls h
+    cases cpls with
+    | nil => simp [Answers] at h
+    | cons c0 cs =>
+      simp only [Answers] at h
+      obtain ⟨hl, hm⟩ := ih cs h.2
+      refine ⟨by simp [hl], ?_⟩
+      intro c hc
+      simp only [List.mem_cons] at hc
+      rcases hc with rfl | hc
+      · exact ⟨a, by simp, h.1⟩
+      · obtain ⟨x, hx, hxa⟩ := hm c hc
+        exact ⟨x, by simp [hx], hxa⟩
+
+theorem np_timeoutPromises (d : Dialect) (env : Env) (t0 : Time) (lo : Db) (now : Time) (hnow : t0 ≤ now) :
+    NoPanic d lo now (timeoutPromises env t0) := by
+  unfold timeoutPromises
+  refine NoPanic.yield _ _ _ _ ?_
+  intro t cpls hi ht _ h
+  rcases answers_store h with rfl | ⟨rs, db, db', rfl, _, hx, _, _⟩
+  · exact NoPanic.done _ _ _
+  · obtain ⟨r, he, rfl⟩ := execTx_one hx
+    simp only [Db.exec] at he
+    injection he with he; injection he with _ hr
+    subst hr
+    have hrows : ∀ x ∈ (takeLimit ((defs d).promiseSelectAll_limit { time := t0, limit := env.cfg.promiseBatchSize })
+        (db.promises.filter ((defs d).promiseSelectAll_where { time := t0, limit := env.cfg.promiseBatchSize }))).map (defs d).promiseSelectAll_proj,
+        x.state = P_PENDING ∧ x.timeout ≤ t := by
+      intro x hx
+      obtain ⟨y, hy, rfl⟩ := List.mem_map.mp hx
+      have hyf := (List.mem_filter.mp (mem_takeLimit _ _ _ hy)).2
+      simp only [defs, promiseSelectAll_where, Bool.and_eq_true, beq_iff_eq, decide_eq_true_eq] at hyf
+      have htt : y.timeout ≤ t := Int.le_trans hyf.2 (Int.le_trans hnow ht)
+      exact ⟨by simp [defs, promiseSelectAll_proj, P_PENDING, hyf.1], by simpa [defs, promiseSelectAll_proj] using htt⟩
+    simp only
+    generalize (takeLimit ((defs d).promiseSelectAll_limit { time := t0, limit := env.cfg.promiseBatchSize })
+        (db.promises.filter ((defs d).promiseSelectAll_where { time := t0, limit := env.cfg.promiseBatchSize }))).map (defs d).promiseSelectAll_proj = rows at hrows ⊢
+    have h1 : (rows.any fun r : PromiseRow => r.state != P_PENDING) = false := by
+      rw [List.any_eq_false]; intro x hx; simp [(hrows x hx).1]
+    have h2 : (rows.any fun r : PromiseRow => !(decide (r.timeout ≤ t))) = false := by
+      rw [List.any_eq_false]; intro x hx; simp [(hrows x hx).2]
+    rw [h1, h2]
+    simp only [Bool.false_eq_true, if_false]
+    split
+    · exact NoPanic.done _ _ _
+    · refine NoPanic.yield _ _ _ _ ?_
+      intro t2 cpls2 hi2 _ _ h2'
+      have hn := no_panic_outs (fun r : PromiseRow => timeoutCmd r.id r.toPromise) t _ cpls2 h2'
+      split
+      · rename_i s heq
+        exact absurd rfl (hn _ (List.mem_of_find?_eq_some heq) s)
+      · exact NoPanic.done _ _ _
+
+theorem and7_of_and6 (s : Nat) (h : (s &&& 6) ≠ 0) : (s &&& 7) ≠ 0 := by
+  intro h7
+  apply h
+  have h76 : (7 &&& 6 : Nat) = 6 := by decide
+  have : s &&& 6 = (s &&& 7) &&& 6 := by rw [Nat.and_assoc, h76]
+  rw [this, h7]; rfl
+
+theorem np_timeoutTasks (d : Dialect) (env : Env) (t0 : Time) (lo : Db) (now : Time) : NoPanic d lo now (timeoutTasks env t0) := by
+  unfold timeoutTasks
+  refine NoPanic.yield _ _ _ _ ?_
+  intro t cpls hi _ _ h
+  rcases answers_store h with rfl | ⟨rs, db, db', rfl, _, hx, _, _⟩
+  · exact NoPanic.done _ _ _
+  · obtain ⟨r, he, rfl⟩ := execTx_one hx
+    simp only [Db.exec] at he
+    split at he
+    · cases he
+    · injection he with he; injection he with _ hr
+      subst hr
+      simp only
+      have hrows : ∀ x ∈ (takeLimit ((defs d).taskSelectAll_limit { states := [T_ENQUEUED, T_CLAIMED], time := t0, limit := env.cfg.taskBatchSize })
+          ((db.tasks.filter ((defs d).taskSelectAll_where { states := [T_ENQUEUED, T_CLAIMED], time := t0, limit := env.cfg.taskBatchSize })).mergeSort taskOrdLe)).map (defs d).taskSelectAll_proj,
+          ((x.state &&& (T_INIT ||| T_ENQUEUED ||| T_CLAIMED)) == 0) = false := by
+        intro x hx
+        obtain ⟨y, hy, rfl⟩ := List.mem_map.mp hx
+        have hyf : (defs d).taskSelectAll_where { states := [T_ENQUEUED, T_CLAIMED], time := t0, limit := env.cfg.taskBatchSize } y = true := by
+          have hm := mem_takeLimit _ _ _ hy
+          have := (List.Perm.mem_iff (List.mergeSort_perm _ _)).mp hm
+          exact (List.mem_filter.mp this).2
+        simp only [defs, taskSelectAll_where, Bool.and_eq_true, bne_iff_ne] at hyf
+        have h6 : maskOf [T_ENQUEUED, T_CLAIMED] = 6 := rfl
+        rw [h6] at hyf
+        have := and7_of_and6 y.state hyf.1
+        simpa [defs, taskSelectAll_proj, T_INIT, T_ENQUEUED, T_CLAIMED] using this
+      generalize (takeLimit ((defs d).taskSelectAll_limit { states := [T_ENQUEUED, T_CLAIMED], time := t0, limit := env.cfg.taskBatchSize })
+          ((db.tasks.filter ((defs d).taskSelectAll_where { states := [T_ENQUEUED, T_CLAIMED], time := t0, limit := env.cfg.taskBatchSize })).mergeSort taskOrdLe)).map (defs d).taskSelectAll_proj = rows at hrows ⊢
+      have h1 : (rows.any fun r : TaskRow => (r.state &&& (T_INIT ||| T_ENQUEUED ||| T_CLAIMED)) == 0) = false := by
+        rw [List.any_eq_false]; intro x hx; simp [hrows x hx]
+      rw [h1]
+      simp only [Bool.false_eq_true, if_false]
+      split
+      · exact NoPanic.done _ _ _
+      · split
+        · exact NoPanic.done _ _ _
+        · refine NoPanic.yield _ _ _ _ ?_
+          intro _ _ _ _ _ _
+          exact NoPanic.done _ _ _
+
+theorem execTx_reads {g : SqlDefs} {α : Type} (f : α → ReadPromiseCmd) : ∀ (l : List α) (db db' : Db) (rs : List Res),
+    db.execTx g (l.map fun x => .readPromise (f x)) = .ok (db', rs) →
+    rs.length = l.length ∧ ∀ r ∈ rs, ∃ rows, r = .promises rows := by
+  intro l
+  induction l with
+  | nil => intro db db' rs h; simp [Db.execTx] at h; obtain ⟨_, rfl⟩ := h; simp
+  | cons a l ih =>
+    intro db db' rs h
+    obtain ⟨db1, r1, rs1, e1, x1, hr⟩ := execTx_cons_ok _ _ _ _ _ _ h
+    simp only [Db.exec] at e1
+    injection e1 with e1; injection e1 with _ hr1
+    obtain ⟨hl, hall⟩ := ih db1 db' rs1 x1
+    subst hr
+    refine ⟨by simp [hl], ?_⟩
+    intro r hrm
+    simp only [List.mem_cons] at hrm
+    rcases hrm with rfl | hrm
+    · exact ⟨_, hr1.symm⟩
+    · exact hall r hrm
+
+theorem np_enqueueFinish (d : Dialect) (deadCmds : List Cmd) (live : List TaskRow) (e : Int) (outs : List Cpl) (lo : Db) (now : Time) :
+    NoPanic d lo now (enqueueFinish deadCmds live e outs) := by
+  unfold enqueueFinish
+  simp only
+  split
+  · exact NoPanic.done _ _ _
+  · refine NoPanic.yield _ _ _ _ ?_
+    intro _ _ _ _ _ _
+    exact NoPanic.done _ _ _
+
+theorem np_enqueueTasks (d : Dialect) (env : Env) (t0 : Time) (lo : Db) (now : Time) : NoPanic d lo now (enqueueTasks env t0) := by
+  unfold enqueueTasks
+  refine NoPanic.yield _ _ _ _ ?_
+  intro t cpls hi _ _ h
+  rcases answers_store h with rfl | ⟨rs, db, db', rfl, _, hx, _, _⟩
+  · exact NoPanic.done _ _ _
+  · obtain ⟨r, he, rfl⟩ := execTx_one hx
+    simp only [Db.exec] at he
+    injection he with he; injection he with _ hr
+    subst hr
+    simp only
+    generalize List.map (defs d).taskSelectEnqueueable_proj _ = rows
+    split
+    · exact NoPanic.done _ _ _
+    · refine NoPanic.yield _ _ _ _ ?_
+      intro t2 cpls2 hi2 _ _ h2
+      rcases answers_store h2 with rfl | ⟨prs, db2, db2', rfl, _, hx2, _, _⟩
+      · exact NoPanic.done _ _ _
+      · obtain ⟨hlen, hall⟩ := execTx_reads (fun r : TaskRow => ({ id := r.rootPromiseId } : ReadPromiseCmd)) _ _ _ _ hx2
+        simp only
+        have h1 : (prs.length != rows.length) = false := by simp [hlen]
+        simp only [h1, Bool.false_eq_true, if_false]
+        split
+        · rename_i hany
+          exfalso
+          rw [List.any_eq_true] at hany
+          obtain ⟨⟨rr, pr⟩, hm, hbad⟩ := hany
+          have hpr : pr ∈ prs := by
+            have := (List.mem_filter.mp hm).1
+            exact (List.of_mem_zip this).2
+          obtain ⟨rows, rfl⟩ := hall pr hpr
+          simp at hbad
+        · split
+          · exact np_enqueueFinish d _ _ _ _ _ _
+          · refine NoPanic.yield _ _ _ _ ?_
+            intro _ outs _ _ _ _
+            exact np_enqueueFinish d _ _ _ _ _ _
+
+/-- the answer to a `(create…, updateSchedule)` transaction is an error or passes the parent's shape check -/
+theorem ans_fire {d : Dialect} {lo hi : Db} (pc : CreatePromiseCmd) (ft : Option CreateTaskCmd)
+    (hft : ∀ tc, ft = some tc → tc.id = invokeId pc.id) (u : UpdateScheduleCmd) {c : Cpl}
+    (h : AnswerOne d lo hi (.store [childCmd pc ft, .updateSchedule u]) c) :
+    c = .err ∨ (∃ n k, c = .store [.rows n, .rows k] ∧ n ≤ 1) ∨ (∃ n k, c = .store [.rows2 n n, .rows k] ∧ n ≤ 1) := by
+  cases c with
+  | err => exact .inl rfl
+  | router m r => simp [AnswerOne] at h
+  | sender b => simp [AnswerOne] at h
+  | store rs =>
+    right
+    obtain ⟨db, db', _, hk, hx, _⟩ := h
+    obtain ⟨db1, r1, rs1, e1, x1, hr⟩ := execTx_cons_ok _ _ _ _ _ _ hx
+    obtain ⟨r2, e2, hrs1⟩ := execTx_one x1
+    simp only [Db.exec] at e2
+    injection e2 with e2; injection e2 with _ hr2
+    subst hr; subst hrs1
+    rcases exec_childCmd_shape pc ft hft db db1 r1 hk e1 with ⟨_, n, rfl, hn1⟩ | ⟨tc, _, n, rfl, hn1⟩
+    · exact .inl ⟨n, _, by rw [← hr2], hn1⟩
+    · exact .inr ⟨n, _, by rw [← hr2], hn1⟩
+
+theorem np_schedulePromises (d : Dialect) (env : Env) (t0 : Time) (lo : Db) (now : Time) (hnow : t0 ≤ now) :
+    NoPanic d lo now (schedulePromises env t0) := by
+  unfold schedulePromises
+  refine NoPanic.yield _ _ _ _ ?_
+  intro t cpls hi ht _ h
+  rcases answers_store h with rfl | ⟨rs, db, db', rfl, _, hx, _, _⟩
+  · exact NoPanic.done _ _ _
+  · obtain ⟨r, he, rfl⟩ := execTx_one hx
+    simp only [Db.exec] at he
+    injection he with he; injection he with _ hr
+    subst hr
+    have hrows : ∀ x ∈ (takeLimit ((defs d).scheduleSelectAll_limit { nextRunTime := t0, limit := env.cfg.scheduleBatchSize })
+        ((db.schedules.filter ((defs d).scheduleSelectAll_where { nextRunTime := t0, limit := env.cfg.scheduleBatchSize })).mergeSort schedOrdLe)).map (defs d).scheduleSelectAll_proj,
+        x.nextRunTime ≤ t := by
+      intro x hx
+      obtain ⟨y, hy, rfl⟩ := List.mem_map.mp hx
+      have hm := mem_takeLimit _ _ _ hy
+      have hyf := (List.mem_filter.mp ((List.Perm.mem_iff (List.mergeSort_perm _ _)).mp hm)).2
+      simp only [defs, scheduleSelectAll_where, decide_eq_true_eq] at hyf
+      have : y.nextRunTime ≤ t := Int.le_trans hyf (Int.le_trans hnow ht)
+      simpa [defs, scheduleSelectAll_proj] using this
+    simp only
+    generalize (takeLimit ((defs d).scheduleSelectAll_limit { nextRunTime := t0, limit := env.cfg.scheduleBatchSize })
+        ((db.schedules.filter ((defs d).scheduleSelectAll_where { nextRunTime := t0, limit := env.cfg.scheduleBatchSize })).mergeSort schedOrdLe)).map (defs d).scheduleSelectAll_proj = rows at hrows ⊢
+    have h1 : (rows.any fun r : ScheduleRow => !(decide (r.nextRunTime ≤ t))) = false := by
+      rw [List.any_eq_false]; intro x hx; simp [hrows x hx]
+    rw [h1]
+    simp only [Bool.false_eq_true, if_false]
+    -- every item pairs a create command with an `updateSchedule`
+    generalize hitems : (rows.filterMap fun r =>
+        match env.cronNext r.toSchedule.cron r.toSchedule.nextRunTime, env.genId r.toSchedule.promiseId r.toSchedule.id r.toSchedule.nextRunTime with
+        | some next, some id =>
+          some (({ id := id, param := r.toSchedule.promiseParam, timeout := r.toSchedule.promiseTimeout + r.toSchedule.nextRunTime, idempotencyKey := none,
+                   tags := (r.toSchedule.promiseTags.set "resonate:schedule" r.toSchedule.id).set "resonate:invocation" "true", createdOn := t } : CreatePromiseCmd),
+                Cmd.updateSchedule { id := r.toSchedule.id, lastRunTime := some r.toSchedule.nextRunTime, nextRunTime := next })
+        | _, _ => none) = items
+    have hupd : ∀ it ∈ items, ∃ u, it.2 = Cmd.updateSchedule u := by
+      intro it hit
+      rw [← hitems] at hit
+      obtain ⟨r, _, hr⟩ := List.mem_filterMap.mp hit
+      split at hr
+      · injection hr with hr; subst hr; exact ⟨_, rfl⟩
+      · cases hr
+    split
+    · exact NoPanic.done _ _ _
+    · refine NoPanic.yield _ _ _ _ ?_
+      intro t2 rcs hi2 _ _ h2
+      obtain ⟨hlen, _⟩ := answers_mem _ _ h2
+      have hl : (rcs.length != items.length) = false := by simp [hlen]
+      simp only [hl, Bool.false_eq_true, if_false]
+      split
+      · exact NoPanic.done _ _ _
+      · refine NoPanic.yield _ _ _ _ ?_
+        intro t3 scs hi3 _ _ h3
+        obtain ⟨_, hmem⟩ := answers_mem _ _ h3
+        split
+        · rename_i hany
+          exfalso
+          rw [List.any_eq_true] at hany
+          obtain ⟨c, hc, hbad⟩ := hany
+          obtain ⟨sub, hsub, hans⟩ := hmem c hc
+          obtain ⟨⟨⟨pc, upd⟩, rc⟩, hz, rfl⟩ := List.mem_map.mp hsub
+          have hit : (pc, upd) ∈ items := (List.of_mem_zip (List.mem_filter.mp hz).1).1
+          obtain ⟨u, hu⟩ := hupd _ hit
+          simp only at hu
+          subst hu
+          have key : c = .err ∨ (∃ n k, c = .store [.rows n, .rows k] ∧ n ≤ 1) ∨ (∃ n k, c = .store [.rows2 n n, .rows k] ∧ n ≤ 1) := by
+            split at hans
+            · rename_i recv _
+              exact ans_fire pc (some { id := invokeId pc.id, recv := recv, mesg := { type := "invoke", root := pc.id, leaf := pc.id }, timeout := pc.timeout, processId := none, state := T_INIT, ttl := 0, expiresAt := 0, createdOn := pc.createdOn })
+                (by intro tc htc; injection htc with htc; subst htc; rfl) u hans
+            · exact ans_fire pc none (by intro tc htc; cases htc) u hans
+          rcases key with rfl | ⟨n, k, rfl, hn⟩ | ⟨n, k, rfl, hn⟩
+          · simp at hbad
+          · have : ¬ n > 1 := by omega
+            simp [this] at hbad
+          · have : ¬ n > 1 := by omega
+            simp [this] at hbad
+        · exact NoPanic.done _ _ _
 
 end Resonate
